@@ -117,6 +117,31 @@ def respItem (srv : Bool) (it : String) : String :=
     match ((it.drop 1).toString).toNat? with
     | some n => if n < 16384 ∨ n > 16777215 then "f goaway" else "f"
     | none => "bad-op"
+  else if kind == "I" then
+    match ((it.drop 1).toString).splitOn "/" with
+    | [st, _, ops] =>
+      match st.toNat?, applyHdrOps ops with
+      | some st, some r => "ok:0:" ++ joinWith "," ((interimFields st r).map fun f => toHex f.1 ++ ":" ++ toHex f.2)
+      | _, _ => "bad-op"
+    | _ => "bad-op"
+  else if kind == "T" then
+    match ((it.drop 1).toString).splitOn "/" with
+    | [_, _, ops] =>
+      let lines : Option (List Bytes) := if ops == "-" then some [] else
+        (ops.splitOn ",").mapM fun t =>
+          match ((t.drop 1).toString).splitOn ":" with
+          | [k, v] =>
+            match ofHex k, ofHex v with
+            | some k, some v => some (k ++ [colon, sp] ++ v ++ [cr, lf])
+            | _, _ => none
+          | _ => none
+      match lines with
+      | none => "bad-op"
+      | some ls =>
+        match trailerFields (ls.flatten ++ [cr, lf]) with
+        | none => "data"
+        | some fs => "ok:1:" ++ joinWith "," (fs.map fun f => toHex f.1 ++ ":" ++ toHex f.2)
+    | _ => "bad-op"
   else if kind == "R" then
     match ((it.drop 1).toString).splitOn "/" with
     | [st, es, ops] =>
@@ -162,12 +187,15 @@ def reqRun (cap : Nat) : GConn → List String → List String → String
       | none => "bad-op"
     else if kind == "H" || kind == "h" then
       match ((it.drop 1).toString).splitOn "/" with
-      | [id, es, _pad, dep, frags, keep] =>
+      | id :: es :: _pad :: dep :: frags :: keep :: more =>
         match id.toNat?, (frags.splitOn "+").mapM ofHex with
         | some id, some fs =>
           let g0 := c.goaway
+          let refuseAt := match more with
+            | [k] => k.toNat?
+            | _ => none
           let (c', o) := recvHeaders cap c id (es != "0") (if dep == "-" then none else dep.toNat?)
-            fs.flatten (keep != "0")
+            fs.flatten (keep != "0") refuseAt
           let tok := outcomeStr o
           if c'.goaway > 0 then reqFinish c' ((tok ++ "!" ++ toString c'.goaway) :: acc)
           else reqRun cap c' rest ((if c'.goaway < 0 ∧ g0 = 0 then tok ++ "~" else tok) :: acc)
